@@ -87,6 +87,8 @@ struct SchedConfig
     double p_stall = 0.0;
     double p_spurious = 0.0;
     double p_startdelay = 0.0;
+    // fine flavour: probability that a cross-thread memory access preempts
+    double p_access = 0.0;
     uint64_t max_stall_ns = 50000000ull;
     uint64_t step_cap = 2000000;
     bool replay = false;            // follow `events` instead of the PRNG
@@ -135,6 +137,8 @@ int nthreads();
 
 void yield_point(const char* what); // explicit preemption point
 void sleep_ns(uint64_t ns);
+// fine flavour: called for every instrumented memory access of the repo's C code
+void on_access(const void* addr, unsigned size, bool is_write);
 uint64_t now_ns();
 uint64_t steps();
 
